@@ -4108,7 +4108,8 @@ void indent_text()
                   // get the token before
                   const size_t temp_ttidx = frm_size - 2;
 
-                  if (temp_ttidx == 0)
+                  if (  frm_size < 2
+                     || temp_ttidx == 0)
                   {
                      indent_column = 1 + indent_size;
                      reindent_line(pc, indent_column);
